@@ -7,7 +7,6 @@ package c14
 import (
 	"fmt"
 	"regexp"
-	"runtime"
 	"sort"
 	"strings"
 	"sync"
@@ -18,6 +17,7 @@ import (
 	uuid "github.com/satori/go.uuid"
 	"pgregory.net/rapid"
 	"verifharness/ctl"
+	"verifharness/hutil"
 	"verifharness/pbt"
 	"verifharness/sim"
 )
@@ -118,10 +118,9 @@ var blockedPat = regexp.MustCompile(`Allocator\)\.(watch|unwatch|run|runNodeChan
 
 // blockedControlPlane lists repository goroutines that sit in a blocking wait inside the control-plane code.
 func blockedControlPlane() []string {
-	buf := make([]byte, 8<<20)
-	buf = buf[:runtime.Stack(buf, true)]
+	buf := hutil.AllStacks()
 	var out []string
-	for _, g := range strings.Split(string(buf), "\n\n") {
+	for _, g := range strings.Split(buf, "\n\n") {
 		head := g
 		if i := strings.Index(g, "\n"); i > 0 {
 			head = g[:i]
